@@ -190,14 +190,13 @@ func (in *Inst) compare(ref *Ref, elems []json.RawMessage, skip map[int]bool) *d
 // the indices whose elements the defect can disturb (nil = class does not apply to the
 // input). A disagreement is attributed to a class only if the response agrees with the
 // reference on every OTHER index, so any other violation still fails the check.
-func knownClasses(c Case, ref *Ref) []struct {
+type knownClass struct {
 	sig  string
 	skip map[int]bool
-} {
-	var out []struct {
-		sig  string
-		skip map[int]bool
-	}
+}
+
+func knownClasses(c Case, ref *Ref) []knownClass {
+	var out []knownClass
 	groups := map[string][]int{}
 	for i, w := range ref.Want {
 		if ent, ok := entities[w.Type]; ok && ent.Multi {
@@ -229,22 +228,13 @@ func knownClasses(c Case, ref *Ref) []struct {
 		if len(sels) > 1 {
 			// D14: resolveManyEntities takes the key / resolver of the whole type group from reps[0]
 			if unres {
-				out = append(out, struct {
-					sig  string
-					skip map[int]bool
-				}{"multi-resolver-batch-key-taken-from-first-representation:unresolvable-member-in-batch", skip})
+				out = append(out, knownClass{"multi-resolver-batch-key-taken-from-first-representation:unresolvable-member-in-batch", skip})
 			} else {
-				out = append(out, struct {
-					sig  string
-					skip map[int]bool
-				}{"multi-resolver-batch-key-taken-from-first-representation:mixed-keys-in-batch", skip})
+				out = append(out, knownClass{"multi-resolver-batch-key-taken-from-first-representation:mixed-keys-in-batch", skip})
 			}
 		}
 		if t == "MultiReq" && c.Fault != nil && c.Fault.Kind == "nil" && c.Fault.Resolver == "FindManyMultiReqByIDs" {
-			out = append(out, struct {
-				sig  string
-				skip map[int]bool
-			}{"multi-resolver-nil-entity-with-requires-aborts-rest-of-batch", skip})
+			out = append(out, knownClass{"multi-resolver-nil-entity-with-requires-aborts-rest-of-batch", skip})
 		}
 	}
 	return out
@@ -274,9 +264,25 @@ func (in *Inst) Check(x *explore.Exec) (string, string) {
 	if d == nil {
 		return "", ""
 	}
-	for _, k := range knownClasses(in.C, ref) {
+	classes := knownClasses(in.C, ref)
+	for _, k := range classes {
 		if in.compare(ref, data.Entities, k.skip) == nil {
 			return k.sig, d.msg + "\n  response: " + in.Data + "\n  errors: " + strings.Join(in.Errs, " | ")
+		}
+	}
+	// several classes at once (e.g. two multi-resolver type groups in one list): the response
+	// must agree on every index outside the union of the classes that apply
+	if len(classes) > 1 {
+		union := map[int]bool{}
+		var sigs []string
+		for _, k := range classes {
+			for i := range k.skip {
+				union[i] = true
+			}
+			sigs = append(sigs, k.sig)
+		}
+		if in.compare(ref, data.Entities, union) == nil {
+			return classes[0].sig, d.msg + "\n  (classes present together: " + strings.Join(sigs, ", ") + ")\n  response: " + in.Data + "\n  errors: " + strings.Join(in.Errs, " | ")
 		}
 	}
 	return d.sig, d.msg + "\n  response: " + in.Data + "\n  errors: " + strings.Join(in.Errs, " | ")
